@@ -126,7 +126,9 @@ fn get_transaction_and_block_hash_with_retry(
     txid: &Txid,
     retries_left: u32,
 ) -> Result<(Transaction, Option<BlockHash>), Box<dyn Error>> {
-    match BTC_CLIENT.read().get_raw_transaction_info(&txid, None) {
+    // Bind the result first so that the read guard is released before a retry takes it again
+    let result = BTC_CLIENT.read().get_raw_transaction_info(&txid, None);
+    match result {
         Ok(result) => match result.transaction() {
             Ok(tx) => Ok((tx.clone(), result.blockhash)),
             Err(_) => Err("Unable to decode transaction".into()),
@@ -168,7 +170,8 @@ fn get_transaction_with_retry(
     txid: &Txid,
     retries_left: u32,
 ) -> Result<Transaction, Box<dyn Error>> {
-    match BTC_CLIENT.read().get_raw_transaction(&txid, None) {
+    let result = BTC_CLIENT.read().get_raw_transaction(&txid, None);
+    match result {
         Ok(result) => Ok(result),
         Err(error) => {
             // Error code -5 is "RPC_INVALID_ADDRESS_OR_KEY", which means the txid is not found
@@ -200,7 +203,8 @@ fn get_block_height_with_retry(
     block_hash: &BlockHash,
     retries_left: u32,
 ) -> Result<usize, Box<dyn Error>> {
-    match BTC_CLIENT.read().get_block_header_info(&block_hash) {
+    let result = BTC_CLIENT.read().get_block_header_info(&block_hash);
+    match result {
         Ok(response) => return Ok(response.height),
         Err(error) => {
             if retries_left > 0 {
